@@ -90,7 +90,7 @@ func runC09(c *Ctx) {
 	}
 	// ---- select + prune: path scenarios over internalDelete
 	c.Analysed(fnName(id))
-	subP, condP, fP := ssa.Value(id.Params[1]), ssa.Value(id.Params[2]), ssa.Value(id.Params[3])
+	subP, condP, fP := ssa.Value(param(id, 1)), ssa.Value(param(id, 2)), ssa.Value(param(id, 3))
 	cls := func(e *PPA, st *State, rv RV) string {
 		rv = e.Resolve(st, rv)
 		switch v := rv.V.(type) {
@@ -133,7 +133,7 @@ func runC09(c *Ctx) {
 				}
 			}
 		case *ssa.Parameter:
-			if len(id.Params) == 5 && v == id.Params[4] {
+			if len(id.Params) == 5 && v == param(id, 4) {
 				return "RET"
 			}
 		case *ssa.Extract:
@@ -421,14 +421,14 @@ func runC09(c *Ctx) {
 	}
 	// ---- path copy
 	for _, f := range []*ssa.Function{wi, wis} {
-		pathP := ssa.Value(f.Params[1])
+		pathP := ssa.Value(param(f, 1))
 		nRec := 0
 		for _, ci := range callsIn(f) {
 			if staticCallee(ci.Common()) != f {
 				continue
 			}
 			nRec++
-			arg := ci.Common().Args[1]
+			arg := refArgs(ci.Common())[1]
 			ok := false
 			detail := Expr(arg)
 			// a same-package helper that returns a freshly allocated copy (childPath(path, name))
